@@ -498,7 +498,7 @@ func Sorted(ctx context.Context, args ...object.Object) object.Object {
 			return result.IsTruthy()
 		})
 		if sortErr != nil {
-			return object.TypeErrorf(sortErr.Error())
+			return object.NewError(sortErr)
 		}
 	} else {
 		if err := object.Sort(resultItems); err != nil {
@@ -556,7 +556,7 @@ func Call(ctx context.Context, args ...object.Object) object.Object {
 		}
 		result, err := callFunc(ctx, fn, args[1:])
 		if err != nil {
-			return object.Errorf(err.Error())
+			return object.NewError(err)
 		}
 		return result
 	case object.Callable:
